@@ -48,6 +48,7 @@ type State struct {
 	path     string
 	heap     map[string]string // heap array name -> current term
 	base     []baseAlt         // what unknown heap arrays look like: guarded alternatives of havoc epochs
+	sel      []selHavoc        // selective havocs (callee frames) since the last full havoc, oldest first
 	counters map[string]string
 	dead     bool
 }
@@ -56,6 +57,7 @@ func (s *State) clone() *State {
 	n := &State{vars: map[types.Object]*Val{}, path: s.path, heap: map[string]string{}, counters: map[string]string{}}
 	n.defers = append([]deferEntry{}, s.defers...)
 	n.base = append([]baseAlt{}, s.base...)
+	n.sel = append([]selHavoc{}, s.sel...)
 	n.panicking = s.panicking
 	n.recovered = s.recovered
 	for k, v := range s.vars {
@@ -74,6 +76,45 @@ func (s *State) clone() *State {
 type baseAlt struct {
 	cond  string
 	epoch string
+}
+
+// selHavoc: a call whose frame is `entries` happened; arrays matching an entry that are not materialised in
+// State.heap are unknown since then (symbol of epoch `epoch`).
+type selHavoc struct {
+	entries []string
+	epoch   string
+}
+
+// frameMatch reports whether heap array `name` belongs to frame entry `entry`.
+func frameMatch(name, entry string) bool {
+	switch entry {
+	case "elems":
+		return strings.HasPrefix(name, "E$")
+	case "maps":
+		return strings.HasPrefix(name, "MH$") || strings.HasPrefix(name, "MV$")
+	case "ptrs":
+		return strings.HasPrefix(name, "P$")
+	}
+	tn, fn, ok := strings.Cut(entry, ".")
+	if !ok {
+		return false
+	}
+	parts := strings.SplitN(name, "$", 3)
+	if len(parts) != 3 || parts[0] != "F" || (parts[1] != fn && fn != "*") {
+		return false
+	}
+	typ := parts[2]
+	i := strings.Index(typ, tn)
+	return i >= 0 && (i == 0 || typ[i-1] == '.') && (i+len(tn) == len(typ) || typ[i+len(tn)] == '.')
+}
+
+func frameMatchAny(name string, entries []string) bool {
+	for _, en := range entries {
+		if frameMatch(name, en) {
+			return true
+		}
+	}
+	return false
 }
 
 type ExitKind int
@@ -144,6 +185,8 @@ type Eng struct {
 	localRefs    map[string]bool
 	inlining     map[*ast.FuncLit]bool
 	goOrd        int
+	curPos       token.Pos
+	prevState    *State
 	stableFields []string
 	oldState     *State // state in which old(...) is evaluated (entry state, or pre-call state for callee ensures)
 	inGo         int
@@ -546,6 +589,21 @@ func (e *Eng) havocHeap(st *State) {
 	// new epoch: subsequent heapSym must yield fresh symbols
 	e.nfresh++
 	st.base = []baseAlt{{cond: "true", epoch: strconv.Itoa(e.nfresh)}}
+	st.sel = nil
+}
+
+// havocFrame forgets exactly the heap arrays a callee with frame `entries` may have written.
+func (e *Eng) havocFrame(st *State, entries []string) {
+	if len(entries) == 0 {
+		return
+	}
+	for k := range st.heap {
+		if frameMatchAny(k, entries) {
+			delete(st.heap, k)
+		}
+	}
+	e.nfresh++
+	st.sel = append(st.sel, selHavoc{entries: entries, epoch: strconv.Itoa(e.nfresh)})
 }
 
 func (e *Eng) declareOnce(d string) {
@@ -573,6 +631,13 @@ func (e *Eng) heapSym(st *State, name, sort string) string {
 		sy := smtSym("H" + ep + "$" + name)
 		e.declareOnce(fmt.Sprintf("(declare-const %s %s)", sy, sort))
 		return sy
+	}
+	for i := len(st.sel) - 1; i >= 0; i-- {
+		if frameMatchAny(name, st.sel[i].entries) {
+			t := sym(st.sel[i].epoch)
+			st.heap[name] = t
+			return t
+		}
 	}
 	term := sym(st.base[len(st.base)-1].epoch)
 	for i := len(st.base) - 2; i >= 0; i-- {
@@ -653,6 +718,15 @@ func (e *Eng) merge(sts []*State) *State {
 	}
 	n := &State{vars: map[types.Object]*Val{}, heap: map[string]string{}, counters: map[string]string{}}
 	n.defers = live[0].defers
+	n.panicking = live[0].panicking
+	for _, s := range live {
+		if s.panicking != n.panicking {
+			e.gap("merge of panicking and non-panicking states (kept first)")
+		}
+		if s.recovered {
+			n.recovered = true
+		}
+	}
 	for _, s := range live {
 		if len(s.defers) != len(n.defers) {
 			e.gap("merge of states with different defer stacks (kept first)")
@@ -703,6 +777,44 @@ func (e *Eng) merge(sts []*State) *State {
 				n.base = append(n.base, baseAlt{cond: c, epoch: a.epoch})
 			}
 		}
+	}
+	// selective havocs: identical histories are kept; otherwise every known array that some state considers
+	// selectively havocked is materialised per state (and merged below), and arrays first met later are unknown
+	sameSel := true
+	for _, s := range live[1:] {
+		if len(s.sel) != len(live[0].sel) {
+			sameSel = false
+			break
+		}
+		for i := range s.sel {
+			if s.sel[i].epoch != live[0].sel[i].epoch {
+				sameSel = false
+			}
+		}
+	}
+	if sameSel {
+		n.sel = append([]selHavoc{}, live[0].sel...)
+	} else {
+		var union []string
+		for _, s := range live {
+			for _, sh := range s.sel {
+				union = append(union, sh.entries...)
+			}
+		}
+		var known []string
+		for name := range e.heapSorts {
+			if frameMatchAny(name, union) {
+				known = append(known, name)
+			}
+		}
+		sort.Strings(known)
+		for _, name := range known {
+			for _, s := range live {
+				e.heapSym(s, name, e.heapSorts[name])
+			}
+		}
+		e.nfresh++
+		n.sel = []selHavoc{{entries: union, epoch: strconv.Itoa(e.nfresh)}}
 	}
 	keys := map[string]bool{}
 	for _, s := range live {
